@@ -1,6 +1,6 @@
 --------------------------- MODULE SecGroup_Trace ---------------------------
 (* Trace validation for C30.  Events (t: loop time ms; tv: current_timer_value() after the event):
-     rx_plain {svc, up, t, tv}   rx_notify {v, macok, sync, t, tv}   rx_wrapped {v, macok, up, t, tv}   synced {t, tv}   tx_wrapped {v, t}
+     rx_plain {svc, up, t, tv}   rx_notify {v, macok, sync, t, tv}   rx_wrapped {v, macok, up, t, tv}   synced {t, tv}   tx_wrapped {v, t, peerok}
    (an exception out of the datagram callback is recorded as "raised:<type>", which nothing explains) *)
 EXTENDS Integers, Sequences, Json, IOUtils, TLC
 Traces == ndJsonDeserialize(IOEnv.TRACE_FILE)
@@ -15,7 +15,7 @@ Step ==
      \/ Ev.ev = "rx_notify" /\ G!RxNotify(Ev.v, Ev.macok = 1, Ev.sync = 1, Ev.t, Ev.tv)
      \/ Ev.ev = "rx_wrapped" /\ G!RxWrapped(Ev.v, Ev.macok = 1, Ev.up, Ev.t, Ev.tv)
      \/ Ev.ev = "synced" /\ G!Synced(Ev.t, Ev.tv)
-     \/ Ev.ev = "tx_wrapped" /\ G!TxWrapped(Ev.v, Ev.t)
+     \/ Ev.ev = "tx_wrapped" /\ G!TxWrapped(Ev.v, Ev.t) /\ Ev.peerok = 1          \* ... and the other devices of the backbone can unwrap it
 TSpec == TInit /\ [][Step]_vars
 Mark == /\ TLCSet(2, [TLCGet(2) EXCEPT ![tid] = IF @ < l THEN l ELSE @])
         /\ (l = Len(Traces[tid]) + 1 => TLCSet(1, TLCGet(1) \cup {tid}))
